@@ -2,6 +2,7 @@
 C05 — provision mints a fair share (function level: `calculate_lp_token_amount_to_user`).
 -/
 import Halo.Proofs.C04
+import Halo.Proofs.C05M
 
 namespace Halo.Props.C05
 open Halo
@@ -29,6 +30,23 @@ theorem share_ok_iff_pos {sender : Nat} {req : Requirements} {S d0 d1 r0 r1 : Na
     (∃ m, lpShare sender req S d0 d1 r0 r1 = .ok m) ↔
       r0 ≠ 0 ∧ r1 ≠ 0 ∧ d0 * S / r0 < W ∧ d1 * S / r1 < W :=
   Halo.C04.share_ok_iff_pos hS
+
+/-- positive supply: depositing more of either asset never mints less -/
+theorem share_mono_deposits {sender sender' : Nat} {req req' : Requirements} {S d0 d1 e0 e1 r0 r1 m m' : Nat}
+    (hS : S ≠ 0) (h : lpShare sender req S d0 d1 r0 r1 = .ok m)
+    (h' : lpShare sender' req' S e0 e1 r0 r1 = .ok m') (h0 : d0 ≤ e0) (h1 : d1 ≤ e1) : m ≤ m' :=
+  Halo.C04.share_mono_deposits hS h h' h0 h1
+
+/-- positive supply, "fair share" under splitting: two provisions priced against the same reserves and
+supply never mint more than the single provision of their sums -/
+theorem share_superadditive {s1 s2 s3 : Nat} {q1 q2 q3 : Requirements} {S d0 d1 e0 e1 r0 r1 m n k : Nat}
+    (hS : S ≠ 0) (h1 : lpShare s1 q1 S d0 d1 r0 r1 = .ok m) (h2 : lpShare s2 q2 S e0 e1 r0 r1 = .ok n)
+    (h3 : lpShare s3 q3 S (d0 + e0) (d1 + e1) r0 r1 = .ok k) : m + n ≤ k :=
+  Halo.C04.share_superadditive hS h1 h2 h3
+
+/-- the hypotheses of `share_superadditive` are jointly satisfiable, with a strict gap -/
+example : lpShare 7 ⟨[], 0, 0⟩ 2000 100 401 1000 4000 = .ok 200 ∧ lpShare 7 ⟨[], 0, 0⟩ 2000 101 403 1000 4000 = .ok 201 ∧
+    lpShare 7 ⟨[], 0, 0⟩ 2000 201 804 1000 4000 = .ok 402 := by decide
 
 example : lpShare 7 ⟨[7], 10, 10⟩ 0 1000 4000 0 0 = .ok 2000 ∧
     Spec.c05Empty 7 ⟨[7], 10, 10⟩ 1000 4000 2000 = true := by decide +kernel
